@@ -118,6 +118,10 @@ def judge(repo, fi, pname, uses, search):
         if m == 'eager' and u.detail in SHORT_CIRCUIT_EAGER and \
                 u.via == 'genexp':
             continue
+        if m == 'libcall':
+            bad.append((u, 'hands the source to %s, a library callable not '
+                        'known to be lazy' % u.detail))
+            continue
         if m == 'pass' and u.via == 'itertools.islice':
             continue      # bounded chunk handed to to_list (slice)
         if m == 'pass' and u.detail not in ('to_list', 'to_set',
@@ -221,6 +225,61 @@ def check_plumbing(repo, rep, cons):
     return n
 
 
+WHOLE_STREAM_DUNDERS = ('__len__', '__bool__', '__contains__',
+                        '__getitem__', '__reversed__', '__length_hint__')
+
+
+def check_wrapper_classes(repo, rep):
+    """R14e: the objects the plumbing wraps a lazy source in must not answer
+    whole-collection questions (len, truth, membership, indexing) by
+    reading the source: callers up the stack (limit checks, `if coll`,
+    len()) ask them before the first element is requested."""
+    ut = repo.module('yaql.language.utils')
+    n = 0
+    for fname in ('memorize', 'limit_iterable'):
+        fi = ut.func(fname)
+        for r in model.walk_shallow(fi.node):
+            if not (isinstance(r, ast.Return) and isinstance(
+                    r.value, ast.Call) and isinstance(
+                    r.value.func, ast.Name)):
+                continue
+            cls = ut.classes.get(fi.qualname + '.' + r.value.func.id) or \
+                ut.classes.get(r.value.func.id)
+            if cls is None:
+                continue
+            n += 1
+            for mname in WHOLE_STREAM_DUNDERS:
+                m = cls.methods.get(mname)
+                site = '%s/%s' % (cls.key, mname)
+                if m is None:
+                    rep.ob('R14e', site, True, 'not defined')
+                    continue
+                loops = [x for x in ast.walk(m.node) if isinstance(
+                    x, (ast.For, ast.While, ast.ListComp, ast.SetComp,
+                        ast.GeneratorExp, ast.DictComp))]
+                pulls = []
+                for c in model.calls_in(m.node):
+                    d = repo.resolve(ut, c.func, model.scope_locals(m))
+                    if d in consume.EAGER and consume.EAGER[d] != () or \
+                            d in consume.NEXT:
+                        pulls.append(c)
+                bad = loops + pulls
+                rep.ob('R14e', site, not bad,
+                       '%s.%s reads the wrapped source (%s): the lazy '
+                       'wrapper every collection argument travels in '
+                       'answers a whole-collection question by consuming '
+                       'the stream, so len()/truth/limit tests on it never '
+                       'return on an endless source' % (
+                           cls.node.name, mname, ', '.join(
+                               model.norm(x).split('\n')[0][:50]
+                               for x in bad[:2])),
+                       loc=ut.loc(m.node),
+                       construct=model.norm(bad[0]).split('\n')[0][:120]
+                       if bad else '')
+    rep.floor('lazy wrapper classes of the plumbing', n, 1)
+    return n
+
+
 def run(repo, rep):
     rep.rule('R14a', 'LAZY-RESULT / NO-MATERIALISATION: with respect to its '
              'source parameter a streaming payload only builds lazy views '
@@ -231,6 +290,9 @@ def run(repo, rep):
              'only a not-found constant follows the loop')
     rep.rule('R14d', 'THE-PLUMBING-IS-LAZY: Iterable.convert, '
              'utils.limit_iterable and utils.memorize satisfy R14a')
+    rep.rule('R14e', 'WRAPPERS-ARE-NOT-SIZED-BY-READING: the wrapper classes '
+             'returned by memorize/limit_iterable do not define len/truth/'
+             'membership/indexing by iterating the source')
     rep.trusted += ['laziness of map/filter/zip/enumerate/itertools',
                     'the exact +1 of the bound is arithmetic, not decided']
     rep.explanation = (
@@ -247,6 +309,7 @@ def run(repo, rep):
     check_table(repo, rep, uni, cons, REPORT_ONLY, 'R14a', False,
                 armed=False)
     n3 = check_plumbing(repo, rep, cons)
+    check_wrapper_classes(repo, rep)
     rep.count(streaming_sources=n1, search_sources=n2, plumbing_sites=n3)
     rep.floor('streaming operator source parameters', n1, 22)
     rep.floor('search source parameters', n2, 5)
